@@ -247,6 +247,11 @@ def tableOf (j : Json) : Except String C13Table.DTable :=
       pure (getS kv "key", rs))
   | _ => pure []
 
+/-- leading and trailing spaces / tabs of a header field value (removed by the server's header parser) -/
+def trimOWS (s : Str) : Str :=
+  let ws (c : UInt8) : Bool := c == 32 || c == 9
+  ((s.dropWhile ws).reverse.dropWhile ws).reverse
+
 def httpH : Handler := fun inp impl => do
   let err := (impl.getObjValAs? String "err").toOption.getD ""
   if err != "" then
@@ -254,7 +259,8 @@ def httpH : Handler := fun inp impl => do
   let host := getS inp "host"
   let target := getS inp "target"
   let tls := getB inp "tls"
-  let xfp := getS inp "xfp"
+  -- the header value as net/http hands it over: optional white space around it is not part of it
+  let xfp := trimOWS (getS inp "xfp")
   let noglob := getB inp "noglob"
   let status := getI impl "status"
   let hits := getI impl "hits"
@@ -298,8 +304,10 @@ def httpH : Handler := fun inp impl => do
     let tableAgree := mhosts == ihosts.map C13Table.chars && mcands == icands
     let upgrade := getS inp "upgrade"
     let accept := getS inp "accept"
-    let hdrTag := if equalFold upgrade (lit "websocket") then "+ws" else if accept == lit "text/event-stream" then "+sse"
-                  else if upgrade.isEmpty && accept.isEmpty then "" else "+hdr"
+    let method := getS inp "method"
+    let hdrTag := (if equalFold upgrade (lit "websocket") then "+ws" else if accept == lit "text/event-stream" then "+sse"
+                  else if upgrade.isEmpty && accept.isEmpty then "" else "+hdr") ++
+                  (if method.isEmpty || method == lit "GET" then "" else "+nonget")
     let globTag := if noglob then "+noglob" else ""
     -- specification on the implementation's answer
     let own (l : Loc) : Bool := l.scheme == scheme && l.host == hexEscapeNonASCII (escape .host host) &&
